@@ -1,7 +1,105 @@
-(* C06 — property theorems only. *)
+(* C06 — property theorems only.  Each is closed by [exact] of a lemma from
+   Proofs_*.v and followed by Print Assumptions.
+
+   Reading guide.  [run cap init sched = Some s]: sched is a schedule of the
+   LTS of Model.v — a chronological list of labels, one per atomic step of
+   some thread (AddConn / RemoveConn thread of a conn, run loop, Close, the
+   swarm registering / removing a conn); ANY interleaving, any number of conns
+   and peers, any channel capacity cap.  [filter vis sched] is what an
+   observer (the harness) sees; [obs sched] is the same list most recent
+   first.  [cnt l h] counts occurrences of label l. *)
 From Coq Require Import List Arith Bool ZArith.
-From Verif Require Import lib.Wire c06.Model c06.Spec gen.Consts_c06.
+From Verif Require Import lib.Wire c06.Model c06.Spec c06.Proofs_base c06.Proofs_main c06.Proofs_thms
+                          c06.Proofs_accept gen.Consts_c06.
 Import ListNotations.
+
+(* THE property on traces: the monitor that judges the implementation's traces
+   (clauses 1-5 of Spec.v, evaluated at every observed label) accepts the
+   observable trace of every schedule of the model. *)
+Theorem c06_monitor_accepts_every_schedule : forall cap sched s,
+  run cap init sched = Some s -> holds_from (obs sched) = [].
+Proof. exact holds_sched. Qed.
+Print Assumptions c06_monitor_accepts_every_schedule.
+
+(* the acceptance check of the correspondence is sound: an accepted label trace
+   is the visible part of a schedule of the model, hence satisfies the monitor *)
+Theorem c06_accepted_trace_is_model_trace : forall cap tr,
+  forallb vis tr = true -> trace_accepted cap tr = true ->
+  exists sched s, run cap init sched = Some s /\ filter vis sched = tr.
+Proof. exact trace_accepted_sound. Qed.
+Print Assumptions c06_accepted_trace_is_model_trace.
+
+Theorem c06_accepted_trace_holds : forall cap tr,
+  forallb vis tr = true -> trace_accepted cap tr = true -> holds_from (rev tr) = [].
+Proof. exact accepted_trace_holds. Qed.
+Print Assumptions c06_accepted_trace_holds.
+
+(* Connected begins and ends at most once per conn; when AddConn(c) has
+   returned it was delivered exactly once — unless the emitter had been closed
+   (Close called), in which case it was not delivered at all *)
+Theorem connected_exactly_once : forall cap sched s c, run cap init sched = Some s ->
+  cnt (ConnB c) (obs sched) <= 1 /\ cnt (ConnE c) (obs sched) <= 1 /\
+  (In (AddRet c) (obs sched) ->
+     (cnt (ConnB c) (obs sched) = 1 /\ cnt (ConnE c) (obs sched) = 1) \/
+     (cnt (ConnB c) (obs sched) = 0 /\ In CloseCall (obs sched))).
+Proof. exact connected_exactly_once_l. Qed.
+Print Assumptions connected_exactly_once.
+
+Theorem disconnected_at_most_once : forall cap sched s c, run cap init sched = Some s ->
+  cnt (DiscB c) (obs sched) <= 1 /\ cnt (DiscE c) (obs sched) <= 1.
+Proof. exact disconnected_at_most_once_l. Qed.
+Print Assumptions disconnected_at_most_once.
+
+(* at quiescence (every call returned, channel empty, loop idle): a conn that saw
+   Connected and whose RemoveConn returned saw Disconnected exactly once, unless
+   Close was called before that RemoveConn returned; and if Close was never
+   called, every conn that saw Connected and was removed from the swarm saw
+   Disconnected begin and end exactly once *)
+Theorem disconnected_exactly_once_at_quiescence : forall cap sched s c,
+  run cap init sched = Some s -> quiescent s = true ->
+  (In (ConnE c) (obs sched) -> In (RemRet c) (obs sched) ->
+     cnt (DiscE c) (obs sched) = 1 \/ close_before_remret c (obs sched) = true) /\
+  (~ In CloseCall (obs sched) -> In (ConnB c) (obs sched) -> In (Unreg c) (obs sched) ->
+     cnt (DiscB c) (obs sched) = 1 /\ cnt (DiscE c) (obs sched) = 1).
+Proof. exact disconnected_exactly_once_at_quiescence_l. Qed.
+Print Assumptions disconnected_exactly_once_at_quiescence.
+
+(* Disconnected(c) never begins before Connected(c) has returned (the parked
+   path), only for a conn that was removed, and not a second time *)
+Theorem disconnect_after_connected_returned : forall cap sched s c before after,
+  run cap init sched = Some s -> filter vis sched = before ++ DiscB c :: after ->
+  In (ConnE c) before /\ In (Unreg c) before /\ ~ In (DiscB c) before.
+Proof. exact disconnect_after_connected_returned_l. Qed.
+Print Assumptions disconnect_after_connected_returned.
+
+(* when Close returns every callback that began has ended, and afterwards no
+   callback begins or ends and the run loop neither reads nor publishes *)
+Theorem close_waits_for_callbacks : forall cap sched s before after,
+  run cap init sched = Some s -> filter vis sched = before ++ CloseRet :: after ->
+  (forall c, cnt (ConnB c) before = cnt (ConnE c) before /\ cnt (DiscB c) before = cnt (DiscE c) before) /\
+  (forall l, In l after -> delivery l = false).
+Proof. exact close_waits_l. Qed.
+Print Assumptions close_waits_for_callbacks.
+
+(* a published state differs from the previous one published for that peer
+   (initially NotConnected), except a NotConnected for which there is a conn of
+   the peer whose AddConn was called and which has already been removed *)
+Theorem no_repeated_state : forall cap sched s p st before after,
+  run cap init sched = Some s -> filter vis sched = before ++ Pub p st :: after ->
+  st <> lastpub p (rev before) \/
+  (st = NotConnected /\ exists c, vanished (rev before) p c = true).
+Proof. exact no_repeated_state_l. Qed.
+Print Assumptions no_repeated_state.
+
+(* at quiescence, Close never called: for every peer the last published state is
+   the peer's actual connectedness (as the observed Reg / Unreg define it), and
+   the model's conn table is exactly what Reg / Unreg say *)
+Theorem last_event_truthful : forall cap sched s,
+  run cap init sched = Some s -> quiescent s = true -> ~ In CloseCall (obs sched) ->
+  (forall p, lastpub p (obs sched) = actual (obs sched) p) /\
+  (forall c, minfo (obs sched) c = info_of (gc s c)) /\ nregs (obs sched) = nconns s.
+Proof. exact last_event_truthful_l. Qed.
+Print Assumptions last_event_truthful.
 
 (* regenerated obligation: the three connectedness values the wire format uses are distinct and the
    zero value of network.Connectedness (what a missing lastConnectednessEvent entry reads as) is NotConnected *)
@@ -10,3 +108,47 @@ Theorem c06_connectedness_consts :
   network_Limited <> network_NotConnected /\ network_Limited <> network_Connected.
 Proof. vm_compute. repeat split; discriminate. Qed.
 Print Assumptions c06_connectedness_consts.
+
+(* ---- non-vacuity ----------------------------------------------------------- *)
+(* the parked path is reachable: RemoveConn overtakes AddConn, AddConn fires the disconnect *)
+Example parked_path_reachable :
+  exists s, run 32 init [Reg 0 7 false; AddCall 0; AChk 0; AEnq 0; ConnB 0; Unreg 0; RemCall 0; RChk 0; REnq 0;
+                         RLock 0; RFin 0; RemRet 0; ConnE 0; ALock 0; DiscB 0] = Some s
+            /\ c_a (gc s 0) = AInDisc /\ c_r (gc s 0) = RDoneP.
+Proof. eexists. split; [vm_compute; reflexivity|]. split; reflexivity. Qed.
+
+(* the forced NotConnected is reachable, and a quiescent state after it *)
+Example forced_notconnected_reachable :
+  exists s, run 32 init [Reg 0 7 false; Unreg 0; AddCall 0; AChk 0; AEnq 0; LDeq; Read 7 NotConnected;
+                         Pub 7 NotConnected; ConnB 0; ConnE 0; ALock 0; AFin 0; AddRet 0;
+                         RemCall 0; RChk 0; REnq 0; RLock 0; DiscB 0; DiscE 0; RFin 0; RemRet 0;
+                         LDeq; Read 7 NotConnected; Quiesce] = Some s /\ quiescent s = true.
+Proof. eexists. split; [vm_compute; reflexivity|reflexivity]. Qed.
+
+(* Close while a callback is running waits for it *)
+Example close_blocks_on_callback :
+  run 32 init [Reg 0 7 false; AddCall 0; AChk 0; AEnq 0; ConnB 0; CloseCall; CSet; CWaited] = None.
+Proof. vm_compute. reflexivity. Qed.
+
+(* the monitor rejects: Disconnected before Connected returned; a second Connected; a repeated
+   Connected event; an untruthful last event at quiescence; a delivery after Close returned *)
+Example monitor_rejects_early_disconnect :
+  holds_from (rev [Reg 0 7 false; AddCall 0; ConnB 0; Unreg 0; RemCall 0; DiscB 0]) <> [].
+Proof. vm_compute. discriminate. Qed.
+Example monitor_rejects_double_connected :
+  holds_from (rev [Reg 0 7 false; AddCall 0; ConnB 0; ConnE 0; ConnB 0]) <> [].
+Proof. vm_compute. discriminate. Qed.
+Example monitor_rejects_repeated_state :
+  holds_from (rev [Reg 0 7 false; Reg 1 7 false; AddCall 0; Read 7 Connected; Pub 7 Connected;
+                   AddCall 1; Read 7 Connected; Pub 7 Connected]) <> [].
+Proof. vm_compute. discriminate. Qed.
+Example monitor_rejects_untruthful_last_event :
+  holds_from (rev [Reg 0 7 false; AddCall 0; ConnB 0; ConnE 0; AddRet 0; Read 7 Connected; Quiesce]) <> [].
+Proof. vm_compute. discriminate. Qed.
+Example monitor_rejects_delivery_after_close :
+  holds_from (rev [Reg 0 7 false; AddCall 0; ConnB 0; CloseCall; CloseRet; ConnE 0]) <> [].
+Proof. vm_compute. discriminate. Qed.
+Example monitor_rejects_missing_disconnect :
+  holds_from (rev [Reg 0 7 false; AddCall 0; ConnB 0; ConnE 0; AddRet 0; Read 7 Connected; Pub 7 Connected;
+                   Unreg 0; RemCall 0; RemRet 0; Read 7 NotConnected; Pub 7 NotConnected; Quiesce]) <> [].
+Proof. vm_compute. discriminate. Qed.
